@@ -7,7 +7,7 @@ from . import _rulecommon as RC
 
 MANIFEST = dict(
     technique="runtime contracts on can_apply_to (identity-level tree snapshot before/after, re-ask, ask on an independently constructed copy), find_nodes/find_node (vs own in-order scan) and apply_to (exception capture after an affirmative answer)",
-    text="Every can_apply_to call made while scanning generated, corpus and rewritten trees with all 11 rule instances is checked for purity (object identities, parent pointers, payloads unchanged), stability (same answer on re-ask and on an identical tree built through the public constructors); every find_nodes/find_node result is compared with an in-order filter and its r_index marks; every apply_to that follows an affirmative answer must return a change whose result is an expression. Held on the calls observed.",
+    text="Every can_apply_to call made while scanning generated, corpus and rewritten trees with all 11 rule instances is checked for purity (object identities, parent pointers, payloads unchanged), stability (same answer on re-ask and on an identical tree built through the public constructors); every find_nodes/find_node result is compared with an in-order filter and its r_index marks; every answer is also compared with a FRESH instance of the same rule (a used instance must not answer differently); every apply_to that follows an affirmative answer must return a change whose result is an expression. Held on the calls observed.",
     note="Trusts our identity shadow and constructor-level copier; the _changed / r_index bookkeeping attributes are deliberately not part of the tree state.",
     ref="DESIGN.md 3/C06",
 )
